@@ -420,6 +420,30 @@ func runPlain(ctx *bex.Ctx) {
 	ctx.Add("methods_and_functions_enumerated_from_documentation", int64(nMethods))
 	ctx.SpaceDone(fmt.Sprintf("every static function and every method of every built-in type listed by GetDocumentation() x documented arity and arity +-1 x every argument tuple from the pool (%d values for arity <= 2, %d for 3..4, 3 for >= 5); 7 contexts each", len(p), len(rp)))
 
+	// lazy lists that DECLARE a huge size and fail at their first item: a consumer that materialises the
+	// list must fail at that item, not ask the runtime for memory for all declared items first (the
+	// runtime's "out of memory" is a fatal error no recover sees)
+	ctx.Space("huge-declared-size")
+	{
+		stages := []string{"map(x->FAULT)", "number((i,v)->(x->FAULT)(v))", "iir(x->FAULT,(x,l)->x)", "map(x->x).map(x->FAULT)", "fsm((s,x)->goto(FAULT)).map(m->m.state)"}
+		consumers := []string{".size()", ".eval().size()", "[0]", ".reverse().first()", "=[]", ".append(1).size()", ".order(x->x).first()", ".set(0,1).size()", ".movingWindow(x->x).size()", ".sum()", ".first()"}
+		for _, fault := range []string{"x.e", "1%x", "throw(\"e\")"} {
+			for _, st := range stages {
+				for _, c := range consumers {
+					if !mine() {
+						continue
+					}
+					expr := "(numbers(a)." + strings.ReplaceAll(st, "FAULT", fault) + ")" + c
+					t := compile(g, expr, 1)
+					huge := pv{name: "2^40", mk: func() value.Value { return value.Int(1 << 40) }, sort: "int"}
+					n, a := mk(huge)
+					checkCase(ctx, t, n, a, true)
+				}
+			}
+		}
+	}
+	ctx.SpaceDone("5 size-preserving lazy stages over numbers(2^40) failing at their first item (type error, modulo by zero, throw) x 11 consumers (9 of them materialise the list); 7 contexts each: the evaluation returns the error, the process does not die")
+
 	// recursion shapes
 	ctx.Space("recursion")
 	{
@@ -600,6 +624,54 @@ func coopScenarios(quick bool, emit func(cscenario)) {
 		both("merge-operand/recursive-func-passing-itself", "func cb(x) if x<100 then numbers(n).map(e->e+100).map(cb).merge(numbers(n),(a,b)->a<b).sum() else "+F("x", 101, faults[fn])+"; cb(0)", 3)
 		both("multiUse-consumer/recursive-func-passing-itself", "func cb(l) if l.size()>2 then numbers(2).multiUse({a:cb,b:q->q.size()}).a else "+strings.ReplaceAll(faults[fn], "x", "l.size()")+"; cb(numbers(n))", 3)
 	}
+	// every closure-calling lazy stage fails in the MIDDLE of its list (more items would follow), consumed
+	// in each context where the consumer's loop does not run under a recover of the evaluating goroutine:
+	// a stage that goes on after its consumer has stopped raises Go's range-function panic in library code
+	{
+		type stg struct {
+			name string
+			tmpl func(f func(v string) string) string // f(v) = the failing expression over variable v
+		}
+		stages := []stg{
+			{"map", func(f func(string) string) string { return "map(x->" + f("x") + ")" }},
+			{"accept", func(f func(string) string) string { return "accept(x->" + f("x") + ">=0)" }},
+			{"number", func(f func(string) string) string { return "number((i,v)->" + f("v") + ")" }},
+			{"combine", func(f func(string) string) string { return "combine((p,q)->" + f("q") + ")" }},
+			{"combine3", func(f func(string) string) string { return "combine3((p,q,r)->" + f("r") + ")" }},
+			{"combineN", func(f func(string) string) string { return "combineN(2,w->(v->" + f("v") + ")(w[1]))" }},
+			{"iir", func(f func(string) string) string { return "iir(x->x,(x,l)->" + f("x") + ")" }},
+			{"iirCombine", func(f func(string) string) string { return "iirCombine(x->x,(x,xl,yl)->" + f("x") + ")" }},
+			{"compact", func(f func(string) string) string { return "compact((p,q)->" + f("q") + "=p)" }},
+			{"cross", func(f func(string) string) string { return "cross([0],(x,y)->" + f("x") + "+y)" }},
+			{"fsm", func(f func(string) string) string { return "fsm((s,x)->goto(" + f("x") + ")).map(m->m.state)" }},
+		}
+		type cx struct {
+			name string
+			n, k int
+			tmpl string // S = the failing stage
+		}
+		ctxs := []cx{
+			{"consumed-at-once", 5, 2, "numbers(n).S.sum()"},
+			{"returned-lazily-to-the-host", 5, 2, "numbers(n).S"},
+			{"returned-by-a-multiUse-function", 5, 2, "numbers(n).multiUse({a:l->l.S,b:l->l.size()}).b"},
+			{"behind-it-a-parallel-map", 17, 14, "numbers(n).S.map(x->slow(x)).sum()"},
+			{"merge-operand-behind-top", 5, 2, "numbers(n).S.top(100).merge(numbers(3),(a,b)->a<b).sum()"},
+			{"second-merge-operand", 5, 2, "numbers(3).merge(numbers(n).S.skip(0),(a,b)->a<b).sum()"},
+		}
+		for _, st := range stages {
+			for _, c := range ctxs {
+				for _, fn := range fnames {
+					if quick && fn == "panicking-host-function" && c.name != "behind-it-a-parallel-map" {
+						continue
+					}
+					src := strings.ReplaceAll(c.tmpl, "S", st.tmpl(func(v string) string { return F(v, c.k, faults[fn]) }))
+					any := c.name == "returned-lazily-to-the-host" // the fault surfaces when the host iterates the result
+					emit(cscenario{Pos: "failing-" + st.name + "/" + c.name, Fault: fn, K: c.k, N: c.n, Src: src, Any: any})
+					emit(cscenario{Pos: "failing-" + st.name + "/" + c.name, Fault: fn, K: c.k, N: c.n, Src: "try " + src + " catch 42", Try: true, Any: any})
+				}
+			}
+		}
+	}
 	// multiUse functions that use their list in every way but the intended one (once, completely)
 	for _, body := range []string{
 		"[1,2].cross(l,(x,y)->x+y)", "l.cross(l,(x,y)->x+y)", "l.cross([1,2],(x,y)->x+y)", "l.sum()+l.sum()", "l.merge(l,(a,b)->a<b)", "l+l", "[l,l]", "{p:l,q:l}",
@@ -705,7 +777,7 @@ func runCoop(ctx *bex.Ctx) {
 			ctx.Violate("deadlock after a fault", rp, "the evaluation returns", t.Leaks, "")
 		}
 	})
-	ctx.SpaceDone("33 multiUse functions misusing their list (twice, through cross/merge/+, kept in the result, nested multiUse, never) x 3 sizes, bare and inside try/catch; 3 fault kinds x 17 positions (incl. lazy lists inside the result of a multiUse function: map first/middle/last entry, nested lists and maps) x fault at {sequential phase, first parallel item, last item} x {bare, inside try/catch}; all schedules; W=2")
+	ctx.SpaceDone("11 closure-calling lazy stages failing in the middle of their list x 6 contexts whose consumer loop is not under a recover of the evaluating goroutine; 33 multiUse functions misusing their list (twice, through cross/merge/+, kept in the result, nested multiUse, never) x 3 sizes, bare and inside try/catch; 3 fault kinds x 17 positions (incl. lazy lists inside the result of a multiUse function: map first/middle/last entry, nested lists and maps) x fault at {sequential phase, first parallel item, last item} x {bare, inside try/catch}; all schedules; W=2")
 	runCoopMethods(ctx)
 }
 
